@@ -139,6 +139,18 @@ def showTok (s : SSt) (n : Nat) : Option String :=
       | none => "?"
     some (s!" t{n}={m}@" ++ "+".intercalate holders)
 
+/-- a per-week ledger over the weeks `0 … W`: `week:value` of the non-zero entries, weeks ascending, `-` if none -/
+def showLedger (f : Nat → Nat) (W : Nat) : String :=
+  let l := (List.range (W + 1)).filterMap fun w =>
+    if f w = 0 then none else some s!"{w}:{f w}"
+  if l.isEmpty then "-" else ",".intercalate l
+
+/-- the ghost ledgers the budget / pool theorems talk about, in the format of the harness's own ledgers (`w_staking.rs`:
+    `base_budget`, `boosted_budget`, `paid_base`, `paid_boosted`, `frozen`, `paid_week`, built from the real contract's deltas) -/
+def showGhosts (s : SSt) : String :=
+  s!" led=bud:{s.baseBudget},{s.boostedBudget};paid:{s.paidBase},{s.paidBoosted};" ++
+  s!"pool:{showLedger s.b.collected s.week};pw:{showLedger s.b.paid s.week}"
+
 def showState (s : SSt) : String :=
   let W := s.week
   let lo := W - 6
@@ -151,7 +163,7 @@ def showState (s : SSt) : String :=
   s!"paid={s.paidBase + s.paidBoosted} cfg={showCfg s.b.cfg}" ++
   String.join (weeks.map (showWeek s)) ++ s!" bk={showBuckets s}" ++
   String.join (s.accts.map (showAcct s)) ++
-  String.join ((List.range s.nonce).filterMap fun i => showTok s (i + 1))
+  String.join ((List.range s.nonce).filterMap fun i => showTok s (i + 1)) ++ showGhosts s
 
 def initOf (ws : List String) : SSt :=
   let epoch := (kvNat ws "epoch").getD 5
